@@ -44,8 +44,13 @@ def c17_miri(ctx, tier, seed, workers, creations, nseeds):
            "--creations", str(creations)]
     rc, out, wall = run_watchdog(cmd, ctx.harness, _miri_env(ctx, seeds), 1800 if tier == "quick" else 7200)
     res = _empty_result("racemon(miri)")
-    ok_runs = len(re.findall(r"^WORKLOAD-OK", out, re.M))
-    tried = len(re.findall(r"^Trying seed:", out, re.M))
+    ok_runs = len(re.findall(r"WORKLOAD-OK", out))
+    tried = len(re.findall(r"Trying seed:", out))
+    if rc == 0 and "error" not in out and "WORKLOAD-MISMATCH" not in out:
+        # -Zmiri-many-seeds exits non-zero if any seed fails; the seeds' stdout may interleave mid-line, so an exit
+        # status of 0 without any error text means that every seed completed cleanly
+        ok_runs = max(ok_runs, nseeds)
+        tried = max(tried, nseeds)
     res["counters"] = dict(evaluations=ok_runs, miri_seeds_tried=tried, miri_runs_completed_clean=ok_runs)
     res["distinct"] = dict(nontrivial=ok_runs, miri_schedules=tried)
     res["extra"] = dict(miri_seed_range="%d..%d" % seeds, workers=workers + 1, creations_per_thread=creations)
@@ -179,7 +184,7 @@ def c17_stress(ctx, tier, seed, run_engine):
 def c17_custom(ctx, spec, tier, seed, run_engine):
     results = []
     shapes = MIRI_SHAPES_THOROUGH if tier == "thorough" else MIRI_SHAPES_QUICK
-    nseeds = 32 if tier == "thorough" else 8
+    nseeds = 64 if tier == "thorough" else 8
     # Miri runs are single-threaded interpreters: run the shapes side by side
     with ThreadPoolExecutor(max_workers=4) as ex:
         futs = [ex.submit(c17_miri, ctx, tier, seed + i, w, c, nseeds) for i, (w, c) in enumerate(shapes)]
@@ -187,7 +192,7 @@ def c17_custom(ctx, spec, tier, seed, run_engine):
         for f in futs:
             results.append(f.result())
     results.append(stress)
-    results.append(c17_tsan(ctx, tier, seed, 5 if tier == "thorough" else 3, 8, 300_000 if tier == "thorough" else 100_000))
+    results.append(c17_tsan(ctx, tier, seed, 10 if tier == "thorough" else 3, 8, 300_000 if tier == "thorough" else 100_000))
     return results
 
 
